@@ -26,3 +26,6 @@ def run(ck):
     funcs.sizing_record(ck, "C07.R2")
     funcs.results_through_funnel(ck, "C07.R4")
     funcs.template_sizes(ck, "C08.R3")
+    fresh.constructor_state(ck, "C20.R2")            # results and operands are built by the constructor: own status record, own final configuration
+    conv.array_protocol_values(ck, "C15.R6")
+    funcs.route_selection(ck, "C07.R8")
